@@ -68,13 +68,10 @@ func c14Judge(k c14Case) *vlib.Failure {
 			}
 		}
 	case "api", "api-after-debug", "api-after-parts":
-		apiCfg := c14APIConfig(k.Set, k.Ctx)
-		m, err := cors.NewMiddleware(apiCfg)
+		m, err := c14APIMiddleware(k.Set, k.Ctx)
 		if err != nil {
 			return vlib.Failf("configuration rejected: %v", err)
 		}
-		scribbleConfig(&apiCfg)
-		scribbleConfig(m.Config())
 		inner := &vlib.Noop{}
 		h := m.Wrap(inner)
 		req := vlib.Req{Method: "OPTIONS", Hdr: map[string][]string{"Origin": {"https://a.b"}, "Access-Control-Request-Method": {"GET"}, "Access-Control-Request-Headers": k.Lines}}
@@ -108,6 +105,29 @@ var c14Contexts = []cors.Config{
 	{Credentialed: true, Methods: []string{"*"}, ResponseHeaders: []string{"X-R"}, MaxAgeInSeconds: -1},
 	{Methods: []string{"*", "PUT"}, ResponseHeaders: []string{"*"}, ExtraConfig: cors.ExtraConfig{PrivateNetworkAccess: true, PreflightSuccessStatus: 200}},
 	{Credentialed: true, Methods: []string{"PATCH"}, MaxAgeInSeconds: 86400, ExtraConfig: cors.ExtraConfig{PrivateNetworkAccessInNoCORSModeOnly: true}},
+}
+
+// c14APIMiddleware builds the middleware of the public-API passes: NewMiddleware with placeholder names of the
+// same number, then the very same Config value edited in place to the real names and resubmitted.
+func c14APIMiddleware(set []string, ctx int) (*cors.Middleware, error) {
+	cfg := c14APIConfig(set, ctx)
+	real := append([]string(nil), cfg.RequestHeaders...)
+	for i := range cfg.RequestHeaders {
+		cfg.RequestHeaders[i] = fmt.Sprintf("x-placeholder-%d", i)
+	}
+	m, err := cors.NewMiddleware(cfg)
+	if err != nil {
+		return nil, err
+	}
+	h := m.Wrap(http.HandlerFunc(func(http.ResponseWriter, *http.Request) {}))
+	h.ServeHTTP(vlib.NewRec(), vlib.Req{Method: "OPTIONS", Hdr: map[string][]string{"Origin": {"https://a.b"}, "Access-Control-Request-Method": {"GET"}, "Access-Control-Request-Headers": {"x-placeholder-0"}}}.HTTP())
+	copy(cfg.RequestHeaders, real)
+	if err := m.Reconfigure(&cfg); err != nil {
+		return nil, err
+	}
+	scribbleConfig(&cfg)
+	scribbleConfig(m.Config())
+	return m, nil
 }
 
 func c14APIConfig(set []string, ctx int) cors.Config {
@@ -469,15 +489,14 @@ func checkC14(c *vlib.Ctx) (string, string) {
 		if f.long {
 			wa = vlib.NewWords(f.alpha, vlib.Pick(c, 3, 4))
 		}
-		apiCfg := c14APIConfig(f.set, 0)
-		m, err := cors.NewMiddleware(apiCfg)
+		m, err := c14APIMiddleware(f.set, 0)
 		if err != nil {
 			ck.Report(c14Case{Set: f.set, Via: "api"}, vlib.Failf("configuration rejected: %v", err))
 			continue
 		}
 		// the same list under the other settings of the remaining fields (shorter words)
 		for ctx := 1; ctx < len(c14Contexts); ctx++ {
-			mc, err := cors.NewMiddleware(c14APIConfig(f.set, ctx))
+			mc, err := c14APIMiddleware(f.set, ctx)
 			if err != nil {
 				ck.Report(c14Case{Set: f.set, Via: "api", Ctx: ctx}, vlib.Failf("configuration rejected: %v", err))
 				continue
@@ -503,8 +522,6 @@ func checkC14(c *vlib.Ctx) (string, string) {
 			c.Evaluations.Add(pc * pc)
 			c.Transitions.Add(pc * pc)
 		}
-		scribbleConfig(&apiCfg) // the caller's slices and Config()'s result are the caller's to overwrite
-		scribbleConfig(m.Config())
 		h := m.Wrap(http.HandlerFunc(func(http.ResponseWriter, *http.Request) {}))
 		apiTry := func(lines []string) {
 			rec := vlib.NewRec()
